@@ -80,8 +80,7 @@ Proof. vm_compute. repeat split; reflexivity. Qed.
    every op; ocaml/drv_store.ml replays the same ops on the extracted model (l2_step_c = l2_step 100 1000); checks/C06.py
    demands equality of all arrays after every op of every history.
    Result type of the model: Ok m | Rej (the C function returns 1 before writing) | Fault (the C code would index outside
-   its arrays or reach exit(1)); the theorems below are about the Ok results (partial correctness); that Fault is
-   unreachable under WF is not proved yet except where stated. ===== *)
+   its arrays or reach exit(1)).  First the Ok results (WF preserved, abs commutes), then fault freedom under WF. ===== *)
 From QSX Require Import Store.Api Store.Matrix Store.MatrixInv Store.L2 Store.L2Refine.
 
 (* the representation invariant: counts consistent, matfree <= matsize, the last matfree slots are free (-1), every column
@@ -150,6 +149,73 @@ Print Assumptions C06_L2_history_refines.
 Theorem C06_L2_refines_empty : forall M mx, refines empty_lstore (empty_prob M mx).
 Proof. exact refines_empty. Qed.
 Print Assumptions C06_L2_refines_empty.
+
+(* ----- fault freedom: the model never indexes outside its arrays, and never rejects what the reference model accepts ----- *)
+From QSX Require Import Store.MatrixSafe Store.L2Safe.
+Open Scope nat_scope.
+
+(* the executable invariant evaluated by checks/C06.py on every model state implies WF *)
+Theorem C06_L2_wf_check_sound : forall m, wf_check m = true -> WF m.
+Proof. exact wf_check_sound. Qed.
+Print Assumptions C06_L2_wf_check_sound.
+
+(* matrix_addrow_end allocates enough: the widths of disjoint columns inside the used part add up to at most the used part *)
+Theorem C06_L2_widths_le_used : forall R m, WFr R m -> lsum (map (fun j => width (cntj m j)) (seq 0 (mcols m))) <= used m.
+Proof. exact widths_le_used. Qed.
+Print Assumptions C06_L2_widths_le_used.
+
+Theorem C06_L2_addcol_safe : forall extra_cols extra_mat m ents,
+  0 < extra_cols -> WF m -> Forall (fun e => fst e < mrows m) ents -> exists m', mat_addcol extra_cols extra_mat m ents = Ok m'.
+Proof. exact mat_addcol_safe. Qed.
+Print Assumptions C06_L2_addcol_safe.
+
+Theorem C06_L2_addcoef_safe : forall extra_mat m i j v, WF m -> i < mrows m -> j < mcols m -> exists r, mat_addcoef extra_mat m i j v = Ok r.
+Proof. exact mat_addcoef_safe. Qed.
+Print Assumptions C06_L2_addcoef_safe.
+
+(* matrix_addrow with distinct column indices: the estimate delta < matfree suffices for the whole in-place loop (invariant:
+   space still needed by blocked columns + 1 if a column ends at the used part <= matfree) *)
+Theorem C06_L2_addrow_safe : forall extra_mat m ents,
+  WF m -> Forall (fun e => fst e < mcols m) ents -> NoDup (map fst ents) -> exists m', mat_addrow extra_mat m ents = Ok m'.
+Proof. exact mat_addrow_safe. Qed.
+Print Assumptions C06_L2_addrow_safe.
+
+(* with a repeated column index the loop can leave the array (exit(1) in the library: finding F-C06-matrix-addrow-exit):
+   witness on a 5-slot array satisfying the invariant; the same row with distinct columns is fine *)
+Theorem C06_L2_addrow_repeated_column_refuted :
+  let m := {| slots := [(0%Z, 1%Q); (1%Z, 1%Q); dslot; (0%Z, 1%Q); dslot];
+              beg := [0; 3]; cnt := [2; 1]; mfree := 1; mrows := 2; colsize := 100 |} in
+  wf_check m = true /\ mat_addrow 1000 m [(0, 1%Q); (0, 1%Q)] = Fault /\
+  exists m', mat_addrow 1000 m [(0, 1%Q); (1, 1%Q)] = Ok m'.
+Proof. exact mat_addrow_repeated_column_faults. Qed.
+Print Assumptions C06_L2_addrow_repeated_column_refuted.
+
+Theorem C06_L2_delcols_safe : forall m mk, WF m -> length mk = mcols m -> exists m', mat_delcols m mk = Ok m'.
+Proof. exact mat_delcols_safe. Qed.
+Print Assumptions C06_L2_delcols_safe.
+
+Theorem C06_L2_delrows_safe : forall m rmk, WF m -> length rmk = mrows m -> exists m', mat_delrows m rmk = Ok m'.
+Proof. exact mat_delrows_safe. Qed.
+Print Assumptions C06_L2_delrows_safe.
+
+(* the whole interface: every call the reference model accepts runs on the concrete store without fault or rejection and
+   keeps the refinement (good = refines + every logical column is the singleton of its row), for every history in which
+   no added row lists a column twice; QSload_prob likewise *)
+Theorem C06_L2_step_safe : forall M extra_cols extra_mat, 0 < extra_cols -> forall s p o p' t,
+  good s p -> pstep M p o = (p', ROk t) -> rows_nodup o -> exists s', l2_step extra_cols extra_mat p s o = Ok s' /\ good s' p'.
+Proof. exact l2_step_safe. Qed.
+Print Assumptions C06_L2_step_safe.
+
+Theorem C06_L2_history_safe : forall M extra_cols extra_mat l, 0 < extra_cols -> forall s p, good s p -> Forall rows_nodup l ->
+  exists s', l2_run M extra_cols extra_mat p s l = Ok s' /\ good s' (prun M p l).
+Proof. exact l2_run_safe. Qed.
+Print Assumptions C06_L2_history_safe.
+
+Theorem C06_L2_load_good : forall M extra_cols extra_mat mx cols rows p, 0 < extra_cols ->
+  load_prob M mx cols rows = Some p -> exists s, l2_load extra_cols extra_mat cols rows = Ok s /\ good s p.
+Proof. exact l2_load_good. Qed.
+Print Assumptions C06_L2_load_good.
+Close Scope nat_scope.
 
 (* the definitions compute; a history with a relocation: three rows over two columns make column 0 move behind the used part
    (matbeg = [10; 1; ...]); the abstraction is what the reference model stores *)
